@@ -294,6 +294,14 @@ func pgpTexts() []pgpText {
 		{"trailing-blank-lines", "text\n\n\n"},
 		{"utf8", "grüße € 😀\n"},
 		{"long-line", strings.Repeat("x", 5000) + "\n"},
+		// sizes that put the inline literal packet (1 mode + 1 + len("message.txt")
+		// + 4 time octets + text) on either side of the OpenPGP length-encoding
+		// boundaries 191|192 and 8383|8384 (RFC 4880 4.2.2)
+		{"literal-body-191", strings.Repeat("a", 191-17)},
+		{"literal-body-192", strings.Repeat("a", 192-17)},
+		{"literal-body-8383", strings.Repeat("b", 8383-17)},
+		{"literal-body-8384", strings.Repeat("b", 8384-17)},
+		{"literal-body-8385", strings.Repeat("b", 8385-17)},
 	}
 }
 
